@@ -17,7 +17,7 @@ def check_L1(report, facts, rule):
         for key, val, node, idx in r['acc'].label_sets:
             n += 1
             adv_before = [a for a in r['acc'].advances if a[4] < idx]
-            ok = val == ('lv', 'position') and not adv_before and key == ('attr', pa.item, 'name')
+            ok = val == ('lv', pa.pos_var) and not adv_before and key == ('attr', pa.item, 'name')
             report.check(ok, rule, 'labels[item.name] = offset reached so far',
                          lambda node=node, val=val: Finding(rule, 'resolve_labels', node,
                                                             'a label is recorded as {} instead of the running offset at its definition'.format(show(val)), line=node.lineno))
@@ -28,16 +28,15 @@ def check_L1(report, facts, rule):
     report.count('label definition sites', n)
     # position starts at 0
     fn = facts.funcs['resolve_labels']
-    init = [s for s in fn.body if isinstance(s, ast.Assign) and isinstance(s.targets[0], ast.Name) and s.targets[0].id == 'position']
-    report.check(len(init) == 1 and unparse(init[0].value) == '0', rule, 'offset counting starts at 0',
-                 lambda: Finding(rule, 'resolve_labels', init[0] if init else fn, 'the running offset does not start at 0', line=fn.lineno))
+    report.check(pa.pos_var is not None, rule, 'offset counting starts at 0',
+                 lambda: Finding(rule, 'resolve_labels', fn, 'no running offset that starts at 0 and advances by the size of each item', line=fn.lineno))
 
 
 def position_starts_at_zero(report, facts, fname, rule):
     fn = facts.funcs[fname]
-    init = [s for s in fn.body if isinstance(s, ast.Assign) and isinstance(s.targets[0], ast.Name) and s.targets[0].id == 'position']
-    report.check(len(init) == 1 and unparse(init[0].value) == '0', rule, '{}: offset counting starts at 0'.format(fname),
-                 lambda: Finding(rule, fname, init[0] if init else fn, 'the running offset does not start at 0', line=fn.lineno))
+    pa = LR.pass_analysis(facts, fname)
+    report.check(pa.pos_var is not None, rule, '{}: offset counting starts at 0'.format(fname),
+                 lambda: Finding(rule, fname, fn, 'the pass has no running offset that starts at 0 and advances with the emitted items', line=fn.lineno))
 
 
 def method_return_lin(facts, cls, mname):
@@ -84,9 +83,9 @@ def check_L4(report, facts, rule):
                 base = base[2]
             auipc_path = any(IS.contains(t, C('is_auipc_jump')) or IS.contains(t, ('attr', pa.item, 'is_auipc_jump'))
                              for t, pol, _ in p.conds if pol)
-            if auipc_path and base == ('lv', 'position'):
+            if auipc_path and base == ('lv', pa.pos_var):
                 pos = base
-            report.check(pos == ('lv', 'position'), rule + '.position', 'resolve_immediates evaluates at the item\'s own start offset',
+            report.check(pos == ('lv', pa.pos_var), rule + '.position', 'resolve_immediates evaluates at the item\'s own start offset',
                          lambda node=node, pos=pos: Finding(rule + '.position', 'resolve_immediates', node,
                                                             'immediates are evaluated at {} instead of the offset at which the item starts'.format(show(pos)), line=node.lineno))
             good_env = env[0] == 'call' and env[1] == 'ChainMap' and env[2] == (('name', 'constants'), ('name', 'labels'))
